@@ -1,4 +1,4 @@
-import Witverif.Proofs.AbiDealloc
+import Witverif.Proofs.AbiDealloc3
 /-!
 # C03 — Cleanup code frees exactly the heap data the lowering allocated
 
@@ -11,8 +11,10 @@ the REAL cleanup tree runs in the reference machine, freed blocks and dropped ha
 those) is evaluated on the real trees for seeded values.
 
 Known defect (see `dealloc_flist_full_false`): cleanup through memory does nothing below a
-fixed-length list.  The dynamic ledger theorem for all list-bearing types is not yet a theorem
-(`partial_obligations` in the evidence); the monitor covers it on the real streams.
+fixed-length list; the dynamic theorem therefore carries `noFlist t`.  That `cleanupBlocks` of the
+memory written by the spec's `store` equals the blocks the spec allocated is checked by the monitor
+on every run (spec-internal consistency); direct-operand cleanup and the lists-and-own mode are
+monitored on the real streams.
 -/
 namespace Witverif.Props.C03
 open Witverif.Abi
@@ -32,6 +34,32 @@ mode also no owned handle) the cleanup through memory is empty — any type, any
 theorem dealloc_indirect_empty_when_nothing_owned (handles : Bool) (t : Ty) (lvl : Nat) (a : Expr) (off : Off)
     (h : needsDealloc handles t = false) : deallocIndirect handles lvl t a off = .ok [] :=
   deallocIndirect_nil handles t lvl a off h
+
+/-- **Cleanup through memory frees exactly the reachable buffers.**  For every type without
+fixed-length lists (any nesting of lists, maps, strings, records, tuples, variants, options,
+results), both pointer widths, any memory `m` whose discriminants are in range at the value's
+location (what a successful `load` guarantees), any nesting level, address expression and offset:
+executing the cleanup tree leaves memory untouched and extends the ledger of freed blocks by exactly
+`cleanupBlocks p m t addr` — the blocks the memory layout says are reachable from the value (each
+list/string/map buffer once, with size `len * elem_size` and the element's alignment, inner buffers
+before outer) — and nothing else.  `Frees` quantifies over every machine state and every environment
+in which the address operand denotes `addr`. -/
+theorem dealloc_indirect_frees_exactly_reachable (p : Nat) (hp : p = 4 ∨ p = 8) (t : Ty) (hn : noFlist t = true)
+    (lvl : Nat) (a : Expr) (off : Off) (ds : List Stmt) (h : deallocIndirect false lvl t a off = .ok ds) :
+    Frees p lvl a ds (fun m x => cleanupBlocks p m t (x + off.at p)) (fun m x => validDiscs p m t (x + off.at p)) :=
+  dealloc_frees p hp t hn lvl a off ds h
+
+/-- **`post_return` end to end**: for an exported function whose result (returned through memory,
+no fixed-length lists) lives at `addr`, the generated post-return frees exactly the reachable blocks,
+each once, leaves memory alone, and returns once. -/
+theorem post_return_frees_exactly_reachable (p : Nat) (hp : p = 4 ∨ p = 8) (f : Func) (t : Ty)
+    (hres : f.result = some t) (hret : 1 < (flatten t).length) (hn : noFlist t = true)
+    (ss : List Stmt) (h : postReturn f = .ok ss)
+    (m : Spec.Mem) (heap : Spec.Heap) (addr : Nat) (hv : validDiscs p m t addr = true) :
+    (execStmts { p, args := [.c ⟨ptrFT p, addr⟩] } { st := ⟨m, heap⟩ } ss).map
+        (fun r => (r.2.freed, r.2.calls, r.2.st.mem)) =
+      some ((cleanupBlocks p m t addr).reverse, [("Return", [])], m) :=
+  postReturn_sound p hp f t hres hret hn ss h m heap addr hv
 
 /-- **Full statement is false of the current code.**  `list<string, 2>` stored in memory owns two
 string buffers (its lowering contains two allocation sites), but the cleanup through memory emits
